@@ -68,7 +68,9 @@ def run_silent_peer(params, known):
         for idle in (1, 3):
             for keepalive in (0, 1, 5):
                 for when in ('at-once', 'after-tick', 'own-transfer-unacknowledged', 'inbound-transfer-half-received',
-                             'own-transfer-unacknowledged+peer-replies', 'inbound-transfer-half-received+peer-replies'):
+                             'own-transfer-unacknowledged+peer-replies', 'inbound-transfer-half-received+peer-replies',
+                             'own-transfer-unacknowledged+peer-replies+keepalive', 'inbound-transfer-half-received+peer-replies+keepalive',
+                             'own-transfer-unacknowledged+peer-terminates-first+keepalive'):
                     count += 1
                     queued = (bytes(range(0xa0, 0xa3)).hex(),) if when.startswith('own-transfer') else ()
                     w = PeerWorld(dict(role=role, idle=idle, keepalive=keepalive, seg_mru=64, tx_init=64, queued=queued))
@@ -81,14 +83,25 @@ def run_silent_peer(params, known):
                         # the peer starts a transfer and never finishes it
                         w.peer_write(T.enc_segment(2, 7, b'ab', [T.ext_total_length(4)]))
                         w.quiesce()
-                    res = w.bus_call(w.proc, RPATH, 'terminate', 0, iface=RIFACE)
-                    w.quiesce()
-                    if when.endswith('+peer-replies'):
+                    if 'peer-terminates-first' in when:
+                        # the peer asks first (the endpoint answers by itself), says one more thing, then nothing
+                        w.peer_write(T.enc_sess_term(0, 0))
+                        w.quiesce()
+                        res = ('ok',)
+                    else:
+                        res = w.bus_call(w.proc, RPATH, 'terminate', 0, iface=RIFACE)
+                        w.quiesce()
+                    if '+peer-replies' in when:
                         # both SESS_TERM exchanged while a transfer can never complete; then silence
                         w.peer_write(T.enc_sess_term(1, 0))
                         w.quiesce()
+                    if when.endswith('+keepalive'):
+                        # one more message from the peer after its SESS_TERM (half the idle time later), then silence for ever
+                        w.clock.now_us += idle * 500000
+                        w.peer_write(T.enc_keepalive())
+                        w.quiesce()
                     # the peer stays silent for ever; let time pass
-                    for _ in range(12):
+                    for _ in range(16):
                         if w.r_closed() or w.next_deadline() is None:
                             break
                         w.apply(('tick',))
